@@ -407,7 +407,12 @@ static bool parse_int64_from_buffer(const char* start, const char* end, int64_t*
         }
     }
 
-    *out = negative ? -(int64_t) value : (int64_t) value;
+    if (negative) {
+        /* value may be 2^63 (INT64_MIN): negating it as int64_t would overflow */
+        *out = (value == (uint64_t) INT64_MAX + 1) ? INT64_MIN : -(int64_t) value;
+    } else {
+        *out = (int64_t) value;
+    }
     return true;
 }
 
